@@ -7,6 +7,8 @@ INVARIANT CommentedLineIsInert
 INVARIANT EditedTreeReadable
 INVARIANT RevertRemovesDropins
 INVARIANT RevertedShow
+INVARIANT RevertUnmasks
+INVARIANT MaskedVendorDropinIsInert
 CONSTRAINT ExportCase
 CHECK_DEADLOCK FALSE
 CONSTANTS MaxSteps = 2
